@@ -124,6 +124,15 @@ def run(ctx):
     pair_loops = [l for l in ast.walk(f.node) if isinstance(l, ast.For) and C.is_call_to(l.iter, "pairwise") and U(l.iter.args[0]) == path]
     ctx.check(len(pair_loops) == 1, "R3", "per-line values are assigned along consecutive nodes of the whole path", f.where(),
               "no loop over pairwise(%s): %s" % (path, [U(l.iter) for l in ast.walk(f.node) if isinstance(l, ast.For)]), f.qname, "pairwise loop")
+    # the per-line values live on the instruction forms, which other analyses of the same parsed code share and rewrite
+    # (a second graph over a sub-range, a renewed add_semantics): every call that returns a path must re-establish them
+    if pair_loops:
+        for r in [x for x in ast.walk(f.node) if isinstance(x, ast.Return) and x.value is not None]:
+            ctx.check(cfg.dominates(pair_loops[0], r), "R3", "a returned path comes with freshly assigned latency_cp values", f.where(r),
+                      "`%s` leaves %s without passing the loop that assigns latency_cp along the path (a remembered result is handed "
+                      "out): latency_cp is state of the instruction forms, which a second graph over the same lines (--lines, "
+                      "flag dependencies) or a renewed add_semantics overwrites in between; the marked lines' values then no longer "
+                      "add up to this graph's longest chain" % (U(r)[:70], f.qname), f.qname, "return without assignment of latency_cp")
     for n in stores:
         val = U(n.value)
         tgt = n.targets[0] if isinstance(n, ast.Assign) else n.target
@@ -183,7 +192,16 @@ def run(ctx):
     # ------------------------------------------------------------------ R5 returned lines
     ctx.rule("R5", "returned lines = kernel lines on the path")
     rets = [r for r in ast.walk(f.node) if isinstance(r, ast.Return) and r.value is not None]
-    rv = rets[0].value if len(rets) == 1 else None
+
+    def through_attr(v):
+        """`return self.x` where the function stores `self.x = <expr>` once: the stored expression"""
+        if isinstance(v, ast.Attribute) and U(v.value) == "self":
+            st = [a for a in ast.walk(f.node) if isinstance(a, ast.Assign) and U(a.targets[0]) == U(v)]
+            if len(st) == 1:
+                return st[0].value
+        return v
+    vals = {U(through_attr(r.value)): through_attr(r.value) for r in rets}
+    rv = list(vals.values())[0] if len(vals) == 1 else None
     if rv is not None:
         # an alias of the path (cp_nodes = set(longest_path[:-1])) is resolved one step
         txt = U(rv)
